@@ -20,3 +20,30 @@ package badger
 //@   ensures [gc-interval] res.GCInterval == cfg.GCInterval.String()
 //@   ensures [gc-sleep] res.GCSleep == cfg.GCSleep.String()
 //@   modifies nothing
+
+// the load direction of the badger options: every option of the saved form is read into the option of the same name
+//@ func (bo *badgerOptions) Unmarshal
+//@   property C15
+//@   requires bo != nil
+//@   ensures res != nil && fresh(res)
+//@   ensures [Dir] res.Dir == bo.Dir
+//@   ensures [ValueDir] res.ValueDir == bo.ValueDir
+//@   ensures [SyncWrites] res.SyncWrites == bo.SyncWrites
+//@   ensures [NumVersionsToKeep] res.NumVersionsToKeep == bo.NumVersionsToKeep
+//@   ensures [MaxTableSize] res.MaxTableSize == bo.MaxTableSize
+//@   ensures [LevelSizeMultiplier] res.LevelSizeMultiplier == bo.LevelSizeMultiplier
+//@   ensures [MaxLevels] res.MaxLevels == bo.MaxLevels
+//@   ensures [ValueThreshold] res.ValueThreshold == bo.ValueThreshold
+//@   ensures [NumMemtables] res.NumMemtables == bo.NumMemtables
+//@   ensures [NumLevelZeroTables] res.NumLevelZeroTables == bo.NumLevelZeroTables
+//@   ensures [NumLevelZeroTablesStall] res.NumLevelZeroTablesStall == bo.NumLevelZeroTablesStall
+//@   ensures [LevelOneSize] res.LevelOneSize == bo.LevelOneSize
+//@   ensures [ValueLogFileSize] res.ValueLogFileSize == bo.ValueLogFileSize
+//@   ensures [ValueLogMaxEntries] res.ValueLogMaxEntries == bo.ValueLogMaxEntries
+//@   ensures [NumCompactors] res.NumCompactors == bo.NumCompactors
+//@   ensures [CompactL0OnClose] res.CompactL0OnClose == bo.CompactL0OnClose
+//@   ensures [ReadOnly] res.ReadOnly == bo.ReadOnly
+//@   ensures [Truncate] res.Truncate == bo.Truncate
+//@   ensures [TableLoadingMode] bo.TableLoadingMode != nil ==> res.TableLoadingMode == *bo.TableLoadingMode
+//@   ensures [ValueLogLoadingMode] bo.ValueLogLoadingMode != nil ==> res.ValueLogLoadingMode == *bo.ValueLogLoadingMode
+//@   modifies nothing
